@@ -49,8 +49,10 @@ type c02Reg struct {
 	ph, sec  int
 	tr       pb.TransportType
 	prefixID int32
-	ppMode   int // 0 registered prefix id, 1 parameters absent, 2 typed-nil parameters, 3 parameters without prefix id (= 0)
+	ppMode   int // 0 registered prefix id, 1 parameters absent, 2 typed-nil parameters, 3 parameters without prefix id (= 0); for min / obfs4: 0 no parameters, 4 prefix parameters (prefixID) on a registration of another transport
 	rid      int
+	// the parameters of the most recent duplicate delivery that differ from the registered ones (-1: none)
+	dupPID int32
 	ident    string
 	// ground truth
 	tracked, valid, used bool
@@ -59,8 +61,8 @@ type c02Reg struct {
 
 type c02World struct {
 	rm      *RegistrationManager
-	priv    [32]byte
-	pub     [32]byte
+	privs   [][32]byte // the station's private keys, in the order the prefix transport tries them
+	pubs    [][32]byte
 	ptr     *prefix.Transport
 	regs    []*c02Reg
 	lastNow int64
@@ -68,8 +70,8 @@ type c02World struct {
 	flights map[string][]byte
 }
 
-func c02Keys() (priv, pub [32]byte) {
-	h := sha256.Sum256([]byte("verif station key"))
+func c02Keys(i int) (priv, pub [32]byte) {
+	h := sha256.Sum256([]byte(fmt.Sprintf("verif station key %d", i)))
 	copy(priv[:], h[:])
 	priv[0] &= 248
 	priv[31] &= 127
@@ -78,13 +80,16 @@ func c02Keys() (priv, pub [32]byte) {
 	return
 }
 
-func newC02World() *c02World {
+func newC02World(nkeys int) *c02World {
 	w := &c02World{flights: map[string][]byte{}}
-	w.priv, w.pub = c02Keys()
+	for i := 0; i < nkeys; i++ {
+		priv, pub := c02Keys(i)
+		w.privs, w.pubs = append(w.privs, priv), append(w.pubs, pub)
+	}
 	w.rm = c09Manager(&c09Live{live: map[string]bool{}})
 	rd := w.rm.registeredDecoys
 	var err error
-	w.ptr, err = prefix.Default([][32]byte{w.priv})
+	w.ptr, err = prefix.Default(w.privs)
 	if err != nil {
 		panic(err)
 	}
@@ -124,8 +129,35 @@ func (w *c02World) mkDecoy(r *c02Reg) *DecoyRegistration {
 			// parameters present, prefix id field unset: registered for the default prefix (id 0)
 			d.transportParams = &pb.PrefixTransportParams{}
 		}
+	} else if r.ppMode == 4 {
+		// a registration of ANOTHER transport whose parameter object happens to be prefix parameters:
+		// the registry accepts any parameter object; the prefix classifier must go by the transport type
+		id := r.prefixID
+		d.transportParams = &pb.PrefixTransportParams{PrefixId: &id}
 	}
 	return d
+}
+
+// ppText is the registration's parameter object as the model sees it.
+func (r *c02Reg) ppText() string {
+	if r.tr == pb.TransportType_Prefix {
+		switch r.ppMode {
+		case 0, 3:
+			return fmt.Sprint(r.prefixID)
+		case 2:
+			return "nil"
+		}
+		return "-"
+	}
+	if r.ppMode == 4 {
+		return fmt.Sprint(r.prefixID)
+	}
+	return "-"
+}
+
+func (w *c02World) identBytes(r *c02Reg) []byte {
+	d := w.mkDecoy(r)
+	return []byte(w.rm.registeredDecoys.transports[d.Transport].GetIdentifier(d))
 }
 
 func (w *c02World) identOf(d *DecoyRegistration) string {
@@ -171,10 +203,17 @@ func (w *c02World) apply(kind byte, ph, sec int, tr pb.TransportType, prefixID i
 	}
 	r := w.find(ph, sec, tr)
 	if r == nil {
-		r = &c02Reg{ph: ph, sec: sec, tr: tr, prefixID: prefixID, ppMode: ppMode, rid: len(w.regs) + 1}
+		r = &c02Reg{ph: ph, sec: sec, tr: tr, prefixID: prefixID, ppMode: ppMode, rid: len(w.regs) + 1, dupPID: -1}
 		w.regs = append(w.regs, r)
 	}
-	d := w.mkDecoy(r)
+	// the object that is delivered carries the parameters of THIS delivery; a duplicate must neither
+	// replace the tracked object nor its parameters (the ground truth keeps those of the first delivery)
+	req := *r
+	req.prefixID, req.ppMode = prefixID, ppMode
+	d := w.mkDecoy(&req)
+	if kind != 'm' && r.tracked && tr == pb.TransportType_Prefix && (ppMode == 0 || ppMode == 3) && prefixID != r.prefixID {
+		r.dupPID = prefixID
+	}
 	r.ident = w.identOf(d)
 	phs := c08Phantoms[ph]
 	switch kind {
@@ -203,11 +242,17 @@ func (w *c02World) apply(kind byte, ph, sec int, tr pb.TransportType, prefixID i
 // flight builds the genuine first flight a client with secret `sec` sends for transport tr (and
 // prefix id / flush policy), using the real client transports.
 func (w *c02World) flight(sec int, tr pb.TransportType, prefixID int32, flush int32) []byte {
-	key := fmt.Sprintf("%d/%d/%d/%d", sec, tr, prefixID, flush)
+	return w.flightK(sec, tr, prefixID, flush, 0)
+}
+
+// flightK: the flight as a client that knows station public key number kj sends it.
+func (w *c02World) flightK(sec int, tr pb.TransportType, prefixID int32, flush int32, kj int) []byte {
+	key := fmt.Sprintf("%d/%d/%d/%d/%d", sec, tr, prefixID, flush, kj)
 	if f, ok := w.flights[key]; ok {
 		return f
 	}
 	secret := c08Secret(sec)
+	_, stationPub := c02Keys(kj) // kj may name a key the station does not hold
 	rdr := hkdf.New(sha256.New, secret, []byte("conjureconjureconjureconjure"), nil)
 	seed := make([]byte, 16)
 	io.ReadFull(rdr, seed)
@@ -216,7 +261,7 @@ func (w *c02World) flight(sec int, tr pb.TransportType, prefixID int32, flush in
 	switch tr {
 	case pb.TransportType_Min:
 		ct := &min.ClientTransport{}
-		err = ct.PrepareKeys(w.pub, secret, rdr)
+		err = ct.PrepareKeys(stationPub, secret, rdr)
 		if err == nil {
 			_, err = ct.WrapConn(cc)
 		}
@@ -227,14 +272,14 @@ func (w *c02World) flight(sec int, tr pb.TransportType, prefixID int32, flush in
 			err = ct.Prepare(context.Background(), nil)
 		}
 		if err == nil {
-			err = ct.PrepareKeys(w.pub, secret, rdr)
+			err = ct.PrepareKeys(stationPub, secret, rdr)
 		}
 		if err == nil {
 			_, err = ct.WrapConn(cc)
 		}
 	case pb.TransportType_Obfs4:
 		ct := &obfs4.ClientTransport{}
-		err = ct.PrepareKeys(w.pub, secret, rdr)
+		err = ct.PrepareKeys(stationPub, secret, rdr)
 		if err == nil {
 			_, _ = ct.WrapConn(cc) // fails reading the server's answer; the flight is recorded
 		}
@@ -247,6 +292,27 @@ func (w *c02World) flight(sec int, tr pb.TransportType, prefixID int32, flush in
 	return f
 }
 
+// crafted builds what the prefix transport would accept as a tag for `ident`: the static bytes of
+// prefix pid followed by the identifier obfuscated to station key kj — for any identifier, also one
+// that belongs to a registration of another transport.
+func (w *c02World) crafted(ident []byte, pid int32, kj int) []byte {
+	p, ok := w.ptr.SupportedPrefixes[prefix.PrefixID(pid)]
+	if !ok {
+		panic("unknown prefix id")
+	}
+	_, pub := c02Keys(kj)
+	tag, err := w.ptr.TagObfuscator.Obfuscate(ident, pub[:])
+	if err != nil {
+		panic(err)
+	}
+	return append(append([]byte(nil), p.StaticMatch...), tag...)
+}
+
+// tagOffset is where the table says the 64-byte tag of a flight built with prefix pid starts.
+func (w *c02World) tagOffset(pid int32) int {
+	return w.ptr.SupportedPrefixes[prefix.PrefixID(pid)].Offset
+}
+
 type c02Offer struct {
 	kind    string // what the harness intends
 	ph      int
@@ -256,6 +322,12 @@ type c02Offer struct {
 	genuine bool    // data begins with an UNALTERED complete flight built for transport owner.tr with prefix id pid
 	pid     int32   // prefix id the flight was built with
 	taglen  int
+	// rawIdent: the stream starts with the bare transport identifier of owner (nothing a client
+	// transport produces; only someone who knows the registration's secret can compute it). READING
+	// DECISION: min looks the first 32 bytes up without looking at the transport type, so a holder of
+	// the secret of a prefix registration who presents its identifier to min is matched to that
+	// registration; this is pinned as accepted behaviour, not reported.
+	rawIdent bool
 }
 
 func trName(tr pb.TransportType) string {
@@ -293,9 +365,15 @@ func (w *c02World) offer(out *vlib.Out, o c02Offer) {
 				continue
 			}
 			seen[p.Offset] = true
-			id, e := w.ptr.TagObfuscator.TryReveal(o.data[p.Offset:p.Offset+64], w.priv)
-			if e == nil && id != nil {
-				reveal = append(reveal, fmt.Sprintf("%d=%s", p.Offset, vlib.Hex(id)))
+			var ids []string
+			for _, priv := range w.privs {
+				id, e := w.ptr.TagObfuscator.TryReveal(o.data[p.Offset:p.Offset+64], priv)
+				if e == nil && id != nil {
+					ids = append(ids, vlib.Hex(id))
+				}
+			}
+			if len(ids) > 0 {
+				reveal = append(reveal, fmt.Sprintf("%d=%s", p.Offset, strings.Join(ids, "+")))
 			}
 		}
 		sort.Strings(reveal)
@@ -312,16 +390,7 @@ func (w *c02World) offer(out *vlib.Out, o c02Offer) {
 	}
 	var info []string
 	for _, r := range w.regs {
-		pp := "-"
-		if r.tr == pb.TransportType_Prefix {
-			switch r.ppMode {
-			case 0, 3:
-				pp = fmt.Sprint(r.prefixID)
-			case 2:
-				pp = "nil"
-			}
-		}
-		info = append(info, fmt.Sprintf("%s,%s,%s,%d", c08Phantoms[r.ph], r.ident, pp, r.rid))
+		info = append(info, fmt.Sprintf("%s,%s,%s,%d", c08Phantoms[r.ph], r.ident, r.ppText(), r.rid))
 	}
 	model := fmt.Sprintf("regwrap|600|21600|1,2,4|%s|%s|%s|%s|%s|%s|%s", strings.Join(w.mops, ";"), strings.Join(info, ";"),
 		c08Phantoms[o.ph], trName(o.tr), vlib.Hex(o.data), strings.Join(reveal, ","), strings.Join(marks, ","))
@@ -373,7 +442,10 @@ func (w *c02World) offer(out *vlib.Out, o c02Offer) {
 	// connection was made to, of the transport the flight was built for and offered to, having
 	// registered the prefix the flight was built with — and the flight unaltered
 	var legit *c02Reg
-	if o.owner != nil && o.genuine && o.tr == o.owner.tr {
+	if o.rawIdent && o.owner != nil {
+		// the registration of that secret and transport on the phantom the connection was made to
+		legit = w.find(o.ph, o.owner.sec, o.owner.tr)
+	} else if o.owner != nil && o.genuine && o.tr == o.owner.tr {
 		if c := w.find(o.ph, o.owner.sec, o.tr); c != nil {
 			if o.tr != pb.TransportType_Prefix || ((c.ppMode == 0 || c.ppMode == 3) && c.prefixID == o.pid) {
 				legit = c
@@ -403,7 +475,8 @@ func flip(b []byte, bit int) []byte {
 }
 
 func c02RunWorld(out *vlib.Out, r *vlib.Rand, nOffers int) {
-	w := newC02World()
+	nkeys := r.Range(1, 3)
+	w := newC02World(nkeys)
 	trs := []pb.TransportType{pb.TransportType_Min, pb.TransportType_Prefix, pb.TransportType_Obfs4}
 	nph, nsec := r.Range(1, 3), r.Range(1, 3)
 	now := int64(0)
@@ -415,6 +488,9 @@ func c02RunWorld(out *vlib.Out, r *vlib.Rand, nOffers int) {
 		if tr == pb.TransportType_Prefix && r.Chance(1, 4) {
 			mode = 1 + r.Intn(3)
 			pid = 0
+		}
+		if tr != pb.TransportType_Prefix && r.Chance(1, 4) {
+			mode = 4
 		}
 		switch k := r.Intn(10); {
 		case k < 6:
@@ -439,12 +515,42 @@ func c02RunWorld(out *vlib.Out, r *vlib.Rand, nOffers int) {
 	for i := 0; i < nOffers; i++ {
 		reg := w.regs[r.Intn(len(w.regs))]
 		pid, flush := reg.prefixID, int32(r.Intn(3))
-		f := w.flight(reg.sec, reg.tr, pid, flush)
+		kj := r.Intn(nkeys)
+		f := w.flightK(reg.sec, reg.tr, pid, flush, kj)
 		early := r.Bytes(r.Intn(40))
 		taglen := len(f)
 		o := c02Offer{ph: reg.ph, tr: reg.tr, owner: reg, taglen: taglen, pid: pid}
 		gen := true
-		switch k := r.Intn(14); {
+		switch k := r.Intn(19); {
+		case k == 14:
+			// a tag for the prefix transport built from the identifier of a registration of ANOTHER
+			// transport (for a prefix registration this is just a genuine flight)
+			cpid := int32(r.Intn(10))
+			if reg.ppMode == 4 || reg.tr == pb.TransportType_Prefix {
+				cpid = reg.prefixID
+			}
+			o.kind, o.tr, o.pid = "cross-transport-crafted", pb.TransportType_Prefix, cpid
+			o.genuine = reg.tr == pb.TransportType_Prefix
+			o.data = append(w.crafted(w.identBytes(reg), cpid, kj), early...)
+		case k == 15:
+			// the bare identifier, offered to min (reading decision, see c02Offer.rawIdent)
+			o.kind, o.tr, o.rawIdent = "raw-identifier-to-min", pb.TransportType_Min, true
+			o.data = append(w.identBytes(reg), early...)
+			if r.Chance(1, 3) {
+				o.ph = (reg.ph + 1 + r.Intn(2)) % 3
+			}
+		case k == 16 && reg.dupPID >= 0:
+			// a duplicate delivery named another prefix: the first delivery's parameters stay in force
+			o.kind, o.genuine, o.pid = "duplicate-other-prefix", true, reg.dupPID
+			o.data = append(append([]byte(nil), w.flightK(reg.sec, reg.tr, reg.dupPID, flush, kj)...), early...)
+		case k == 17:
+			// built for a station key this station does not hold
+			o.kind = "unknown-station-key"
+			o.data = append(append([]byte(nil), w.flightK(reg.sec, reg.tr, pid, flush, nkeys)...), early...)
+			if reg.tr == pb.TransportType_Min {
+				// the min flight does not depend on the station key: it is the genuine flight
+				o.genuine = true
+			}
 		case k < 3:
 			o.kind, o.data, o.genuine = "genuine", f, gen
 		case k < 5:
@@ -463,7 +569,7 @@ func c02RunWorld(out *vlib.Out, r *vlib.Rand, nOffers int) {
 			o.tr = trs[(r.Intn(2)+1+int(indexOf(trs, reg.tr)))%3]
 		case k < 9 && reg.tr == pb.TransportType_Prefix:
 			other := (pid + 1 + int32(r.Intn(9))) % 10
-			o.kind, o.data, o.genuine, o.pid = "cross-prefix", append(append([]byte(nil), w.flight(reg.sec, reg.tr, other, flush)...), early...), true, other
+			o.kind, o.data, o.genuine, o.pid = "cross-prefix", append(append([]byte(nil), w.flightK(reg.sec, reg.tr, other, flush, kj)...), early...), true, other
 		case k < 10:
 			cut := r.Intn(len(f))
 			if r.Bool() {
@@ -474,7 +580,13 @@ func c02RunWorld(out *vlib.Out, r *vlib.Rand, nOffers int) {
 			// alter one bit inside the identifying material
 			lo, hi := 0, len(f)
 			if reg.tr == pb.TransportType_Prefix {
-				lo = len(f) - 64
+				// the tag is where the TABLE says it is (not "the last 64 bytes": a flush policy or a prefix
+				// that appends bytes would silently move the flips out of the tag)
+				lo = w.tagOffset(pid)
+				hi = lo + 64
+				if len(f) != hi {
+					out.Count("flight-longer-than-offset+tag")
+				}
 			}
 			if reg.tr == pb.TransportType_Obfs4 {
 				if r.Bool() {
@@ -498,11 +610,14 @@ func c02RunWorld(out *vlib.Out, r *vlib.Rand, nOffers int) {
 			n := []int{0, 1, 31, 32, 33, 63, 64, 65, 85, 200, 8191, 8192, 8200}[r.Intn(13)]
 			o.data = r.Bytes(n)
 			if r.Bool() {
-				// a static prefix followed by garbage
-				for _, p := range w.ptr.SupportedPrefixes {
-					o.data = append(append([]byte(nil), p.StaticMatch...), o.data...)
-					break
+				// a static prefix followed by garbage (chosen by the seeded PRNG, not by Go's map order)
+				var ids []int
+				for id := range w.ptr.SupportedPrefixes {
+					ids = append(ids, int(id))
 				}
+				sort.Ints(ids)
+				p := w.ptr.SupportedPrefixes[prefix.PrefixID(ids[r.Intn(len(ids))])]
+				o.data = append(append([]byte(nil), p.StaticMatch...), o.data...)
 			}
 			o.tr = trs[r.Intn(3)]
 		}
